@@ -48,7 +48,10 @@ out.append("requests, near-colliding tags); each is a dimension, not the mutant'
 out.append("were also given the list of defect families already used and six unused directions): the additions are the")
 out.append("'sixth round' list of section 9.5; several were written from the directions before the changes were run.")
 out.append("")
-out.append("**Not caught: C04/g.** That change replaces an epoch longer than 64 bytes by a digest computed with a new private")
+out.append("**Not caught: C04/g and C17/k (the same limit).** C17/k compresses a derivation key longer than one cipher block")
+out.append("(166 bytes) with a digest under a new private label, so a measurement M1 longer than 166 bytes and the 32-byte")
+out.append("measurement digest(M1) derive the same randomness - and nothing else collides. C04/g is the same construction on the")
+out.append("epoch: it replaces an epoch longer than 64 bytes by a digest computed with a new private")
 out.append("label before it enters the derivation, so the epoch E and the 32-byte epoch digest(E) collide - and nothing else")
 out.append("does. The colliding partner can only be named by evaluating the private function the change introduces; no bounded")
 out.append("enumeration of inputs that is independent of the changed code contains that pair (2^-256 by chance). This is the")
